@@ -108,7 +108,7 @@ func checkGenderTables(c *Check) {
 				return true
 			}
 			fn := Callee(info, call)
-			if fn == nil || fn.Name() != "MatchesGender" || len(call.Args) < 2 {
+			if fn == nil || !nameIs(fn, "MatchesGender") || len(call.Args) < 2 {
 				return true
 			}
 			direct := len(call.Args) == 2
